@@ -8,6 +8,7 @@ require (
 	github.com/TheCacophonyProject/lepton3 v0.0.0-20210324024142-003e5546e30f
 	github.com/TheCacophonyProject/thermal-recorder v0.0.0
 	github.com/TheCacophonyProject/window v0.0.0-20200312071457-7fc8799fdce7
+	gopkg.in/yaml.v1 v1.0.0-20140924161607-9f9df34309c0
 )
 
 replace github.com/TheCacophonyProject/thermal-recorder => /repo
